@@ -668,6 +668,11 @@ func judgeCall(mi *dyn.MethodInfo, c *callCase, got *dyn.Outcome, err error, sl 
 		}
 		return fmt.Sprintf(format, a...) + fmt.Sprintf("\n %s.%s mount=%s config=%+v%s\n call=%s", c.Call.Resource, c.Call.Method, c.Mount, c.Config, wire, hx.J(c.Call))
 	}
+	if sl != nil {
+		if msg := viewsAgree(sl); msg != "" {
+			return fail("%s", msg)
+		}
+	}
 	if err != nil {
 		return fail("the call failed although the resource succeeds: %v", err)
 	}
@@ -690,7 +695,7 @@ func judgeCall(mi *dyn.MethodInfo, c *callCase, got *dyn.Outcome, err error, sl 
 	return ""
 }
 
-var mounts = []string{"bare", "bare", "mux", "prefix", "prefix-mux"}
+var mounts = []string{"bare", "filtered", "mux", "prefix", "prefix-mux"}
 
 func TestC02Calls(t *testing.T) {
 	rec := stats.For("C02")
